@@ -250,6 +250,16 @@ def shard_method(arg):
     quick = tier == "quick"
     stateful = m in ("02", "04", "07", "14", "16", "23", "25", "11", "08", "13", "63", "68", "76", "26", "88", "99")
     pairs = 2 if quick else 3
+    # random multi-preemption schedules from the shard PRNG, two and three threads
+    for _ in range(20 if quick else 150):
+        if out_of_budget(rec):
+            break
+        k = rng.choice((2, 2, 3))
+        descs = [pair_for_method(rng, m)[0] for _ in range(k)]
+        total = sum(alone(d)[1] for d in descs)
+        sch = sorted({(rng.randrange(1, total + 1), rng.randrange(k)) for _ in range(rng.randrange(1, 8))})
+        info, eff = check_schedule(rec, descs, sch, "random")
+        rec.case(f"random-{k}-threads", (json.dumps(descs), tuple(sch)) if eff else None)
     for p in range(pairs):
         descs = pair_for_method(rng, m)
         stride = (3 if stateful else 7) if quick else 1
@@ -259,16 +269,6 @@ def shard_method(arg):
             rec.sample(f"enum-{m}", {"calls": descs, "schedules": n, "stride": stride})
         if stride == 1:
             rec.exhaustive.append("all schedules with <= 2 preemptions (line granularity) of the method-level call pairs")
-    # random multi-preemption schedules from the shard PRNG, two and three threads
-    for _ in range(20 if quick else 400):
-        if out_of_budget(rec):
-            break
-        k = rng.choice((2, 2, 3))
-        descs = [pair_for_method(rng, m)[0] for _ in range(k)]
-        total = sum(alone(d)[1] for d in descs)
-        sch = sorted({(rng.randrange(1, total + 1), rng.randrange(k)) for _ in range(rng.randrange(1, 8))})
-        info, eff = check_schedule(rec, descs, sch, "random")
-        rec.case(f"random-{k}-threads", (json.dumps(descs), tuple(sch)) if eff else None)
     if not quick:
         # opcode granularity samples
         for _ in range(40):
@@ -315,16 +315,9 @@ def shard_national(arg):
     import random
     rng = random.Random(f"{seed}:C14:nat:{cc}")
     rec = Rec()
-    start_budget(tier)
+    start_budget(tier, quick_s=14, thorough_s=200)
     quick = tier == "quick"
-    for p in range(3 if quick else 10):
-        calls = national_calls(rng, cc)
-        descs = rng.sample(calls, 2) if p != 1 else [calls[-1], calls[-3] if len(calls) >= 8 else calls[0]]
-        n = enumerate_two_preemptions(rec, descs, 9 if quick else 1, "enum2-national")
-        rec.classes[f"enum-national-{cc}"] += n
-        if p == 0:
-            rec.sample(f"enum-national-{cc}", {"calls": descs, "schedules": n})
-    for _ in range(10 if quick else 200):
+    for _ in range(10 if quick else 100):
         if out_of_budget(rec):
             break
         k = rng.choice((2, 3))
@@ -333,6 +326,13 @@ def shard_national(arg):
         sch = sorted({(rng.randrange(1, total + 1), rng.randrange(k)) for _ in range(rng.randrange(1, 8))})
         info, eff = check_schedule(rec, descs, sch, "random-national")
         rec.case("random-national", (json.dumps(descs), tuple(sch)) if eff else None)
+    for p in range(3 if quick else 10):
+        calls = national_calls(rng, cc)
+        descs = rng.sample(calls, 2) if p != 1 else [calls[-1], calls[-3] if len(calls) >= 8 else calls[0]]
+        n = enumerate_two_preemptions(rec, descs, 9 if quick else 1, "enum2-national")
+        rec.classes[f"enum-national-{cc}"] += n
+        if p == 0:
+            rec.sample(f"enum-national-{cc}", {"calls": descs, "schedules": n})
     return rec
 
 
